@@ -23,6 +23,10 @@ ASSUMPTIONS = [
     "members of a table are the public non-method attributes of the class body (read from vars(cls), not from the table's own index)",
     "a reverse lookup may return any member name whose value carries the code (duplicated codes exist: null/uccm, PCCC INT files)",
     "status text for unknown codes must contain the two-digit hex code (case-insensitive)",
+    "the live status table is not its own oracle for 'known' (encapsulation statuses 0x64 / 0x65 / 0x69 merged into it would otherwise pass as known): "
+    "the 40 CIP general status codes the library lists at the pinned commit (golden list in vlib/data/code_tables.json: 1-22, 26-31, 34, 37-41, 209, 251-255) "
+    "and every (status, extended) pair of the pinned commit keep a text; codes in the range CIP reserves (0x30-0xCF) have no text of their own, "
+    "theirs must carry the hex code; for the remaining codes (defined by CIP, not listed at the pinned commit) either form is accepted",
 ]
 ANCHORS = [
     ("pycomm3/map.py", "MapMeta.__new__"), ("pycomm3/map.py", "MapMeta.__getitem__"),
@@ -302,8 +306,12 @@ def run(ctx):
                 txt_ = get_service_status(s)
             except Exception as e:  # noqa
                 txt_ = e
-            if s not in gold_status and isinstance(txt_, str) and f"{s:02x}" not in txt_.lower():
-                res.violation("status-text-fallback", f"get_service_status({s:#x}) -> {txt_!r}: {s:#x} is not a CIP general status the library lists, the text must carry the hex code", None)
+            if s == 0 and isinstance(txt_, str):
+                res.dont_care("status-text-of-success:" + ("fallback" if "00" in txt_ else "own-text"))   # 0 is no error code: any text will do
+            elif s not in gold_status and 0x30 <= s <= 0xCF and isinstance(txt_, str) and f"{s:02x}" not in txt_.lower():
+                res.violation("status-text-fallback", f"get_service_status({s:#x}) -> {txt_!r}: {s:#x} lies in the range CIP reserves (0x30-0xCF, no general status is defined there), the text must carry the hex code", None)
+            elif s not in gold_status and not (0x30 <= s <= 0xCF) and isinstance(txt_, str) and f"{s:02x}" not in txt_.lower():
+                res.dont_care("status-text-for-a-code-the-pinned-table-lacks")   # a later release may add texts for defined codes (0x20, 0x23 ...)
             elif s in gold_status and (not isinstance(txt_, str) or not txt_.strip() or txt_.lower().startswith("unknown error")):
                 res.violation("status-text-known", f"get_service_status({s:#x}) -> {txt_!r}: a listed CIP general status lost its text", None)
     for pair in gold_all.get("extended_status_pairs", []):
